@@ -28,7 +28,7 @@ DIST = si.DIMENSIONS["Distance"]
 
 
 def budget(tier):
-    return {"shards": 8 if tier == "quick" else 14, "deadline_s": 45 if tier == "quick" else 600}
+    return {"shards": 14, "deadline_s": 45 if tier == "quick" else 600}
 
 
 def mk_rows(spec):
@@ -218,7 +218,7 @@ def queries(rng, spec, rows):
 
 def run(ctx):
     rng = ctx.rng
-    total = 350 if ctx.tier == "quick" else 30000
+    total = 2500 if ctx.tier == "quick" else 100000
     calc = Calculator()
     for i in range(ctx.share(total)):
         if not ctx.time_left():
